@@ -1762,6 +1762,13 @@ func (n *RegexNode) reduceRep() *RegexNode {
 			break
 		}
 
+		// Two group loops are one loop only as far as the text they match goes. Which
+		// iterations run, and so what a group inside them captured last, differs:
+		// (?:(a{1,2}){1,2}){2} on "aaaa" ends with group 1 = "a", ((a{1,2}){2,4}) with "aa".
+		if child.T == t && child.containsCapture() {
+			break
+		}
+
 		u = child
 		if u.M > 0 {
 			if (math.MaxInt32-1)/u.M < min {
@@ -1802,6 +1809,16 @@ func (n *RegexNode) reduceRep() *RegexNode {
 
 	return u
 
+}
+
+// containsCapture reports whether a capture group lies anywhere below n.
+func (n *RegexNode) containsCapture() bool {
+	for _, c := range n.Children {
+		if c.T == NtCapture || c.containsCapture() {
+			return true
+		}
+	}
+	return false
 }
 
 // Simple optimization. If a concatenation or alternation has only
